@@ -922,6 +922,20 @@ class Spec:
             return V('bool', z3.BoolVal(ok))
         if fn == 'validated':
             return V('bool', self.validated_goal(ex, st))
+        if fn == 'currenttable':
+            # the value of the table pointer loaded after this path last won the resize flag (nil if there is none):
+            # while the flag is held no other goroutine replaces the table, so that value is the current table
+            idx = [i for i, t in enumerate(st.trace) if t[0] == 'flagwon']
+            loads = [t for t in st.trace[(idx[-1] if idx else len(st.trace)):] if t[0] == 'tblload']
+            if not loads:
+                return V('$addr', PAddr(base=NIL, lo=0))
+            return loads[0][1]
+        if fn == 'validatedtable':
+            # the table that the most recent newerTableExists(table) call of this path was asked about (nil if none)
+            calls = [t for t in st.trace if t[0] == 'call' and self.prog.short(t[1]).endswith('.newerTableExists')]
+            if not calls:
+                return V('$addr', PAddr(base=NIL, lo=0))
+            return calls[-1][2][1]
         if fn == 'ncb':
             f = ev(args[0])
             ft = ex.term(f)
@@ -1277,8 +1291,9 @@ class Spec:
         for g in list(st.ghost.keys()):
             if g.startswith('view$'):
                 del st.ghost[g]
-            elif g in self.ghost_decl:
-                st.ghost[g] = ex.fresh('gLK_' + mangle(g), st.ghost[g].sort())
+        for g in self.ghost_decl:
+            cur = self.ghost_get(ex, st, g).x      # (created on demand)
+            st.ghost[g] = ex.fresh('gLK_' + mangle(g), cur.sort())
         for key, cell in st.mem.items():
             keep = [(q, v) for (q, v) in cell[1] if q.cid is not None]
             cell[0] = ex.fresh('MLK_' + mangle(key), cell[0].sort())
@@ -1304,7 +1319,7 @@ class Spec:
         snap.lets = dict(st.lets)
         st.lk_old = snap
 
-    TRACE_FNS = {'nacquire', 'nblocking', 'nheld', 'holds', 'ncb', 'ncall', 'lastret', 'validated', 'monitorOK', 'itercalls',
+    TRACE_FNS = {'currenttable', 'validatedtable', 'nacquire', 'nblocking', 'nheld', 'holds', 'ncb', 'ncall', 'lastret', 'validated', 'monitorOK', 'itercalls',
                  'iterselect', 'selectchan', 'tickerchan', 'spawnedbefore', 'spawnfn', 'finalizer', 'closed'}
 
     def mentions_trace(self, e):
@@ -1326,6 +1341,20 @@ class Spec:
 
     def on_contract_call(self, ex, fr, ins, con, name, args, st):
         st.trace.append(('call', name, [a for a in args], ex.line(ins)))
+        cc = ex.cur_contract
+        if cc is not None and not getattr(ex, 'dry', 0) and fr.f['name'] == ex.cur_fn:
+            # `oncall <method or function name>: expr` -- obligation at every call of that callee (arg0 = receiver, ...)
+            mname = self.prog.short(name).rsplit('.', 1)[-1]
+            for cl in cc.of('oncall'):
+                if cl.extra['fn'] != mname or not ex.active(cl) or cl.extra['fn'] in ex.cur_env:
+                    continue
+                e2 = dict(ex.cur_env)
+                e2.update(ex.local_env(fr, st))
+                for j, a in enumerate(args):
+                    e2['arg%d' % j] = ('val', a)
+                g = self.eval_bool(ex, cl.expr, e2, st, ex.old_for(st))
+                ex.oblige(st, '%s/%s/oncall.%s.%s@L%s' % (ex.tagstr(cl), ex.short_fn(), mname, cl.label or 'c%d' % cl.ordinal, ex.line(ins)), g,
+                          tags=cl.tags, where='%s:%d' % (cl.file, cl.line), kind='oncall')
         if ex.mode == 'intf' and self.is_shared_call(name) and not getattr(ex, 'dry', 0):
             self.env_step(ex, st)
             st.pending_action = (name, st.copy(), ex.line(ins), fr)
